@@ -1073,7 +1073,7 @@ def model(ex, st, c, args):
             raise Panic('index out of bounds: the len is %d' % n)
         r = args[0]
         return Ref(r.cell, list(r.path) + [('index', k)])
-    mm = re.fullmatch(r'<(?:\[.*\]|Vec<.*>) as Index<std::ops::(Range|RangeTo|RangeInclusive|RangeToInclusive|RangeFull)(?:<usize>)?>>::index', c)
+    mm = re.fullmatch(r'<(?:\[.*\]|Vec<.*>) as Index<(?:std::ops::)?(Range|RangeTo|RangeInclusive|RangeToInclusive|RangeFull)(?:<usize>)?>>::index', c)
     if mm:
         v = D(args[0])
         n = len(v.items)
@@ -1091,7 +1091,7 @@ def model(ex, st, c, args):
         if t == 'panic':
             raise Panic('slice index out of range (or start > end)')
         return Ref(st.new_cell(VecV(v.items[t[0]:t[1]])), [])
-    if re.fullmatch(r'<\[.*\] as Index<std::ops::RangeFrom<usize>>>::index', c) or re.fullmatch(r'<Vec<.*> as Index<std::ops::RangeFrom<usize>>>::index', c):
+    if re.fullmatch(r'<(?:\[.*\]|Vec<.*>) as Index<(?:std::ops::)?RangeFrom<usize>>>::index', c):
         v = D(args[0])
         i = args[1].fields[0]
         n = len(v.items)
@@ -1458,7 +1458,7 @@ def model(ex, st, c, args):
         else:
             out = SStr([Opaque(kind, (SStr(s.items),))])
         return Ref(st.new_cell(out), []) if kind == 'trim' else out
-    if c == 'core::str::<impl str>::get' or re.fullmatch(r'<(std::string::String|str) as Index<std::ops::Range\w*<usize>>>::index', c) \
+    if c == 'core::str::<impl str>::get' or re.fullmatch(r'<(std::string::String|str) as Index<(?:std::ops::)?Range\w*(?:<usize>)?>>::index', c) \
             or c == 'core::str::<impl str>::split_at':
         s = to_sstr(ex, args[0])
         rng = args[1]
